@@ -15,7 +15,8 @@ SPEC = ROOT / "spec"
 EVIDENCE = ROOT / "evidence"
 REPLAYS = ROOT / "replays"
 WORK = ROOT / ".work"
-REPO = Path("/repo")
+# the tree under test: /repo, unless a development run points the harness at a scratch worktree
+REPO = Path(os.environ.get("HIVE_REPO", "/repo"))
 FINDINGS_FILE = ROOT / "known_findings.json"
 
 EXIT_OK, EXIT_VIOLATION, EXIT_MACHINERY = 0, 1, 2
